@@ -431,6 +431,9 @@ impl<'a> GeneratorState<'a> {
                         match left {
                             ExprType::Absolute(a, b, c) => {
                                 self.asm(STA, left, pos, high_byte)?;
+                                // The carry of a subtraction tells about its operands,
+                                // not about the 8 bits value stored here
+                                self.carry_flag_ok = false;
                                 self.flags = if high_byte {
                                     FlagsState::Unknown
                                 } else {
@@ -439,6 +442,7 @@ impl<'a> GeneratorState<'a> {
                             }
                             ExprType::AbsoluteX(s) => {
                                 self.asm(STA, left, pos, high_byte)?;
+                                self.carry_flag_ok = false;
                                 self.flags = if high_byte {
                                     FlagsState::Unknown
                                 } else {
@@ -447,6 +451,7 @@ impl<'a> GeneratorState<'a> {
                             }
                             ExprType::AbsoluteY(s) => {
                                 self.asm(STA, left, pos, high_byte)?;
+                                self.carry_flag_ok = false;
                                 self.flags = if high_byte {
                                     FlagsState::Unknown
                                 } else {
